@@ -212,11 +212,15 @@ class SetGen:
                     arc += 1
                 parts = [('ref', pn)]
                 # occasionally spell intermediate arcs inline: { parent 7 3 } or { parent sub(7) 3 }
+                def label(n):
+                    # the name in name(number) is a label only: it may be spelled like any other node, known or not
+                    known = [x[1] for x in nodes if x[0] == mname] + [sym for syms in m['imports'].values() for sym in syms if sym[:1].islower()]
+                    return rng.choice(known) if known and rng.random() < 0.5 else 'sub%d' % n
                 if rng.random() < 0.2:
                     mid = rng.randint(1, 9)
-                    parts.append(('num', mid) if rng.random() < 0.5 else ('named', 'sub%d' % mid, mid))
+                    parts.append(('num', mid) if rng.random() < 0.5 else ('named', label(mid), mid))
                     poid = poid + [mid]
-                parts.append(('num', arc))
+                parts.append(('num', arc) if rng.random() < 0.9 else ('named', label(arc), arc))
                 return parts, poid + [arc]
 
             def add(decl, oid=None, **truth):
@@ -231,8 +235,16 @@ class SetGen:
             if rng.random() < 0.85:
                 parts, oid = pick_parent()
                 imp('SNMPv2-SMI', 'MODULE-IDENTITY')
-                revs = [('20%02d0%d0%d0000Z' % (rng.randint(0, 20), rng.randint(1, 9), rng.randint(1, 9)), self.text())
-                        for _ in range(rng.randint(0, 3))]
+                def stamp():
+                    # ExtUTCTime: YYYYMMDDHHMMZ, or the short form YYMMDDHHMMZ whose year is 19YY (RFC 2578 section 2)
+                    r = rng.random()
+                    if r < 0.5:
+                        return '20%02d0%d0%d0000Z' % (rng.randint(0, 20), rng.randint(1, 9), rng.randint(1, 9))
+                    rest = '%02d%02d%02d%02dZ' % (rng.randint(1, 12), rng.randint(1, 28), rng.randint(0, 23), rng.randint(0, 59))
+                    if r < 0.75:
+                        return '%02d' % rng.randint(0, 99) + rest
+                    return '%04d' % rng.randint(1900, 2037) + rest
+                revs = [(stamp(), self.text()) for _ in range(rng.randint(0, 3))]
                 revs.sort(reverse=True)
                 add({'kind': 'moduleIdentity', 'name': self.names.fresh(hyphen_ok=False), 'lastUpdated': '202001010000Z',
                      'organization': self.text(), 'contact': self.text(), 'description': self.text(), 'revisions': revs,
@@ -430,6 +442,12 @@ class SetGen:
         if rng.random() < (0.7 if self.exotic_defvals else 0.35) and resolved and 'bits' not in (resolved if syn.get('user') else {}):
             local = [n[1] for n in nodes if n[0] == mname]
             d['defval'] = self.defval(resolved, local)
+            foreign = [n for n in nodes if n[0] != mname and self.importable(mname, n[0], n[1])]
+            if self.exotic_defvals and resolved.get('base') == 'OBJECT IDENTIFIER' and foreign and rng.random() < 0.5:
+                fm, fn = rng.choice(foreign)[:2]            # DEFVAL { name } naming a node of another module
+                imp(fm, fn)
+                d['defval'] = ('oid', fn)
+                d['defval_module'] = fm
         add(d, oid, nodetype='scalar', syntax=syn, chain_base=resolved)
 
     exotic_defvals = False
@@ -558,7 +576,7 @@ class SetGen:
             return
         parts, oid = pick_parent()
         imp('SNMPv2-CONF', 'MODULE-COMPLIANCE')
-        mand = rng.sample(groups, min(len(groups), rng.randint(1, 2)))
+        mand = rng.sample(groups, min(len(groups), rng.choice([0, 1, 1, 2, 2])))    # no MANDATORY-GROUPS at all is legal
         cond = [g for g in groups if g not in mand][:2]
         seen = set()
         keep = []
@@ -571,7 +589,7 @@ class SetGen:
                 imp(pm, pn)
         mand = [x for x in mand if x in keep]
         cond = [x for x in cond if x in keep]
-        if not mand:
+        if not mand and not cond:
             return
         # one MODULE clause per home module of the groups: the local ones under an unnamed clause (or one naming this
         # module), the imported ones under `MODULE <home>`; clause order is random, so named clauses may precede the unnamed
@@ -614,11 +632,21 @@ class Layout:
         if r < 0.8:
             return '  ' + self.eol + '   '
         if r < 0.9:
-            return ' -- a comment' + self.eol + ' '
+            return ' --' + self.comment() + self.eol + ' '
         return self.eol + self.eol
 
+    COMMENTS = [' a comment', ' c', '', '-', '--', '-- ruler', '---- x OBJECT IDENTIFIER ::= { iso 2 }', ' -- inner -- dashes --',
+                '----------', '-----------', ' "quote', " it's", ' END', ' ; } ::=', ' MACRO', ' \t tab', " 'FF'h 99999999999999999999999"]
+
+    def comment(self):
+        """the body of a comment: anything up to the end of the line, further hyphens included"""
+        return self.rng.choice(self.COMMENTS)
+
     def nl(self):
-        return self.eol if not self.wild else self.rng.choice([self.eol, self.eol + self.eol, ' -- c' + self.eol])
+        if not self.wild:
+            return self.eol
+        r = self.rng.choice([0, 1, 2])
+        return self.eol if r == 0 else self.eol + self.eol if r == 1 else ' --' + self.comment() + self.eol
 
 
 def q(s):
